@@ -98,6 +98,15 @@ PROPS = {
         assumptions=COMMON_ASSUME + ["resynchronisation oracle: delivered frames are attributed by the source offset at which the decode call ends (DESIGN section 3)"],
         targets=[enum("enum", ["props/C12_enum.cpp"], qs=12, ts=16)],
     ),
+    "C17": dict(
+        level="exploration",
+        exhaustive_possible=False,
+        rule="cases are (API, driver style, N, driver script) tuples on scripted octet/chunk drivers over a model stream, and plumbing runs (API, stream length, count, scripts, "
+             "aux region); non-trivial = a script with a partial transfer or interruption before completion, or mixed octet/chunk endpoints; distinct by the serialised case",
+        assumptions=COMMON_ASSUME + ["drivers never transfer more than asked; hard errors are sticky; transient 0/EINTR/EAGAIN results are only generated for the chunk API "
+                                     "(the per-octet plumbing documents no retry); aux buffers designate the region [offset, used)"],
+        targets=[enum("enum", ["props/C17_enum.cpp"], qs=12, ts=16)],
+    ),
 }
 
 NOTE_COMMON = ("trusted: clang/ASan/UBSan, the harness and its reference model; the search is bounded (see evidence: tier bounds and counts); "
@@ -149,6 +158,14 @@ MANIFEST_TEXT = {
         level_text="Every string up to length 8 (thorough 10) over {END, ESC, ESC_END, ESC_ESC, other} is used as payload, raw decoder input and garbage prefix in both modes with "
                    "octet- and chunk-style endpoints; the oracle is structural (delimiter only as delimiter, escapes well-formed, length bound), an inverse (round trip, concatenation), a "
                    "reference decoder at frame boundaries, and a metamorphic relation for injected source/sink errors. Random 1 KiB payloads extend the alphabet.",
+        level_note=NOTE_COMMON,
+    ),
+    "C17": dict(
+        engine="enum",
+        technique="bounded-exhaustive driver-behaviour scripts (all scripts <= 5/7 over 8 behaviours x N x API x driver style) + plumbing grid + random long transfers against a stream model",
+        level_text="Scripted octet- and chunk-style drivers sit on a model stream and record what was really moved, so exactness (no loss, duplication, reordering) is observed "
+                   "independently of return values; every behaviour script up to length 5 (thorough 7) is enumerated for the four chunk calls, the nine plumbing calls run over a grid of "
+                   "stream lengths, counts, partial/hard-error scripts and aux regions inside exact-size (ASan) blocks.",
         level_note=NOTE_COMMON,
     ),
 }
